@@ -131,8 +131,10 @@ def sm3(
     # Compute preconditioners (1/sqrt(s)) where s is the statistics.
     new_preconditioners = jax.tree.map(
         lambda t: 1.0 / jnp.sqrt(t + diagonal_epsilon), new_diagonal_statistics)
-    preconditioned_grads = jax.tree.map(lambda g, p: g * p, updates,
-                                        new_preconditioners)
+    # The accumulators are float32; keep the update and the momentum buffer in
+    # the gradient's dtype.
+    preconditioned_grads = jax.tree.map(lambda g, p: (g * p).astype(g.dtype),
+                                        updates, new_preconditioners)
 
     # Compute updated momentum (also handle quantization)
     updated_momentum = jax.tree.map(
@@ -162,7 +164,9 @@ def sm3(
     if callable(learning_rate):
       lr = learning_rate(state.count)
 
-    new_updates = jax.tree.map(lambda pg: -lr * pg, updated_momentum_with_wd)
+    # As optax.scale_by_schedule does: the step size takes the update's dtype.
+    new_updates = jax.tree.map(lambda pg: -jnp.asarray(lr, dtype=pg.dtype) * pg,
+                               updated_momentum_with_wd)
     return new_updates, SM3State(count=state.count+1, stats=new_sm3_stats)
 
   return optax.GradientTransformation(init_fn, update_fn)
